@@ -1025,6 +1025,11 @@ struct MultiSvc {
     begin_attached: bool,
     end_attached: bool,
     with_feedback: bool,
+    /// This response (by index) fills the message up to the very limit,
+    /// ignoring the room the middleware asked to be left for the TSIG
+    /// record: signing it fails and the middleware has to send a truncated
+    /// one in its place (RFC 8945 section 5.3).
+    greedy: Option<usize>,
 }
 
 type MwStream = futures_util::stream::Iter<std::vec::IntoIter<domain::net::server::service::ServiceResult<Vec<u8>>>>;
@@ -1048,6 +1053,13 @@ impl<M: Clone + Default + Send + Sync + 'static> domain::net::server::service::S
             if let Ok(q) = msg.sole_question() {
                 let text = format!("part{}", i).into_bytes();
                 ab.push((q.qname(), Class::IN, Ttl::from_secs(60), Txt::<Vec<u8>>::build_from_slice(&text).unwrap())).unwrap();
+                if self.greedy == Some(i) {
+                    ab.clear_push_limit();
+                    let fill = Txt::<Vec<u8>>::build_from_slice(&[b'f'; 255]).unwrap();
+                    while ab.push((q.qname(), Class::IN, Ttl::from_secs(60), fill.clone())).is_ok() {}
+                    let small = Txt::<Vec<u8>>::build_from_slice(b"s").unwrap();
+                    while ab.push((q.qname(), Class::IN, Ttl::from_secs(60), small.clone())).is_ok() {}
+                }
             }
             let mut cr = CallResult::new(ab.additional());
             if multi && self.begin_attached && i == 0 {
@@ -1082,7 +1094,11 @@ async fn middleware_sequence(w: &World) {
         begin_attached: sim::chance("mw.begin_attached", 1, 2),
         end_attached: sim::chance("mw.end_attached", 1, 2),
         with_feedback: n > 1,
+        greedy: if sim::chance("mw.greedy", 1, 4) { Some(sim::draw("mw.greedy_at", n as u64) as usize) } else { None },
     };
+    if svc.greedy.is_some() {
+        sim::stat("probe.response_leaves_no_room_for_tsig");
+    }
     let mw = TsigMiddlewareSvc::<Vec<u8>, MultiSvc, std::sync::Arc<Key>, ()>::new(svc.clone(), key.clone());
     let id = sim::draw("msg.id", 65536) as u16;
     let mut req = build_msg(id, "zone.example.", 0, 0, false);
@@ -1116,6 +1132,15 @@ async fn middleware_sequence(w: &World) {
         if !matches!(scan(&bytes), Scan::One(_)) {
             viol("completeness", "middleware-response-unsigned".into(), format!("response {} of {} to a signed request left the TSIG middleware without a (single, trailing) TSIG record", got, n));
             return;
+        }
+        if svc.greedy == Some(got - 1) {
+            // What comes out instead: question only, TC set, NOERROR, signed.
+            let v = crate::dns::view(&bytes);
+            let ok = v.as_ref().is_some_and(|v| v.tc && v.recs.iter().all(|r| r.rtype == Rtype::TSIG) && v.questions.len() == 1 && v.rcode == domain::base::iana::Rcode::NOERROR);
+            if !ok {
+                viol("conformance", "middleware-truncated-response-shape".into(), format!("a response that left no room for the TSIG record came out as {} octets that are not a question-only, TC=1, NOERROR message", bytes.len()));
+                return;
+            }
         }
         let mut dm = Message::from_octets(bytes).unwrap();
         if let Err(e) = cseq.answer(&mut dm, t48(sim::wall_secs())) {
